@@ -230,6 +230,46 @@ def footprint(ctx, doc, sym, det):
     return next((f for f in ctx.findings if f["id"] == fid), None) if fid else None
 
 
+# "suppress exactly what they name": a document that contains no pragma has nothing suppressed and no pragma error, whatever pragma
+# lines other documents of the same run contain — including documents whose tokenization fails after their pragma lines were collected
+# (tokenizer crash tail `- TAB 1. ` / `- TAB`, both already listed findings of C01) and pragmas that do not compile.
+PRAGMA_FIRST = [
+    "<!-- pyml disable-num-lines 50 md012,md009,md013,md041,md047,md022,md001-->\n\ntext\n\n- \t1. \n",
+    "<!-- pyml disable-next-line md041-->\ntext\n\n[r]: /u\n\n-\t\n",
+    "text\n<!-- pyml disable-next-line md009-->\n<!-- pyml disable-next-line md012-->\n<!-- pyml disable-next-line md013-->\n\n-\t\n",
+    "<!-- pyml disable-next-line not-a-rule-->\ntext\n\n<!-- pyml bogus-command md013-->\n\n-\t\n",
+    "<!-- pyml disable-num-lines 50 md012,md009,md013,md041,md047,md022,md001-->\n\n# fine\n",
+    "<!-- pyml disable-next-line not-a-rule-->\n# fine\n",
+]
+VICTIMS = ["text \n\n\n\nmore  \n" + "long " * 30 + "\n# late heading\nend", "no heading \n", "# h\n\n\n\n#### deep \n"]
+
+
+def other_files_pragmas(ctx):
+    fails, evals, nontrivial = [], 0, 0
+    with implib.workspace() as ws:
+        d = os.path.join(ws, "leak")
+        os.makedirs(d)
+        alone = {}
+        for vi, v in enumerate(VICTIMS):
+            implib.write(os.path.join(d, "v.md"), v)
+            alone[vi] = vlib.run_main(["--continue-on-error", "scan", "v.md"], cwd=d)
+        for fi, first in enumerate(PRAGMA_FIRST):
+            for vi, v in enumerate(VICTIMS):
+                implib.write(os.path.join(d, "a.md"), first)
+                implib.write(os.path.join(d, "v.md"), v)
+                code, out, err = vlib.run_main(["--continue-on-error", "scan", "a.md", "v.md"], cwd=d)
+                evals += 1
+                got = sorted(l for l in out.splitlines() if l.startswith("v.md:"))
+                want = sorted(l for l in alone[vi][1].splitlines() if l.startswith("v.md:"))
+                goterr = sorted(l for l in err.splitlines() if l.startswith("v.md:"))
+                nontrivial += bool(want)
+                if got != want or goterr:
+                    fails.append(({"files": {"a.md": first, "v.md": v}, "argv": ["--continue-on-error", "scan", "a.md", "v.md"]}, "pragma-of-another-file-acts",
+                                  {"missing": [l for l in want if l not in got], "extra": [l for l in got if l not in want], "errors_against_victim": goterr,
+                                   "oracle": "v.md contains no pragma: its failures equal those of v.md scanned alone and no pragma error names it"}))
+    return evals, nontrivial, fails
+
+
 def run(ctx):
     ctx.lean_stage([], ["Verif.Props.C11", "Verif.Props.C20LeanMark"])   # pragma_invisible_leanmark lives with the L_shift instances
     stats, samples = c07.engine_correspondence(ctx, 150 if ctx.quick() else 3000, tag="pragma", gen=gen, corpus=[])
@@ -260,6 +300,9 @@ def run(ctx):
             ctx.known_finding(f)
             continue
         ctx.report({"doc": nd}, sym, dict(det, oracle="scan / tokens of the document with a pragma line inserted vs without it"))
+    ev_o, nt_o, fails_o = other_files_pragmas(ctx)
+    for case, sym, det in fails_o:
+        ctx.report(case, sym, det)
     if ctx.broken and not ctx.violations:
         ctx.violation({"oracle": "Verif.Props.C11 / pragma correspondence broken; no failing document found"}, no_input=True)
     ctx.assumptions += ["case folding is ASCII (ids, aliases, command words)", "reports located on the pragma line itself (e.g. line length) are outside the property",
@@ -268,6 +311,8 @@ def run(ctx):
                         "differential": {"evaluations": evals, "distinct_nontrivial": len(nontrivial), "documents": len(pool), "footprints_absorbed": absorbed, "strata": strata,
                                          "rule": "pool documents x insertion points x {pragma naming a default-disabled rule, next-line / num-lines pragma naming a rule that fires, by id or alias}; "
                                                  "non-trivial = the pragma actually suppresses something", "exhaustive": not ctx.quick()},
+                        "other_files": {"evaluations": ev_o, "distinct_nontrivial": nt_o, "exhaustive": True,
+                                        "rule": "6 pragma-carrying first files (4 whose tokenization then fails, 2 with pragmas that do not compile) x 3 pragma-free second files, --continue-on-error"},
                         "samples": samples[:2] + [{"doc": f[0][:200]} for f in fails[:1]]})
 
 
@@ -282,6 +327,21 @@ def replay(ctx, path):
         hit = [f for f in fl if f[0] == inp["doc"]]
         print(hit[:2] or "no difference on this pragma placement now")
         if hit:
+            print(f"VIOLATION property=C11 replay={path}")
+            return 1
+        return 0
+    if "files" in inp:
+        with implib.workspace() as ws:
+            for n, t in inp["files"].items():
+                implib.write(os.path.join(ws, n), t)
+            implib.write(os.path.join(ws, "alone", "v.md"), inp["files"]["v.md"])
+            both = vlib.run_main(inp["argv"], cwd=ws)
+            alone = vlib.run_main(["--continue-on-error", "scan", "v.md"], cwd=os.path.join(ws, "alone"))
+        a = sorted(l for l in both[1].splitlines() if l.startswith("v.md:"))
+        b = sorted(l for l in alone[1].splitlines() if l.startswith("v.md:"))
+        e = [l for l in both[2].splitlines() if l.startswith("v.md:")]
+        print({"with_other_file": a, "alone": b, "errors": e})
+        if a != b or e:
             print(f"VIOLATION property=C11 replay={path}")
             return 1
         return 0
